@@ -282,9 +282,10 @@ impl Xq {
     }
     pub fn val(self) -> Val {
         if sym::on() {
-            return match sym::konst(self.0) {
-                Some(r) => Val::Fin(r),
-                None => sym::unsupported("concrete value of a symbolic scalar"),
+            return match sym::node(self.0) {
+                Node::Const(r) | Node::Cast(r) => Val::Fin(r),
+                Node::In(i) => Val::Fin(sym::concretize(i)),
+                _ => sym::unsupported("concrete value of a symbolic scalar"),
             };
         }
         ST.with(|s| s.borrow().arena[self.0 as usize].clone())
